@@ -44,6 +44,7 @@ var (
 	fOut     = flag.String("out", "", "worker result file")
 	fJournal = flag.String("journal", "", "worker journal file")
 	fTCP     = flag.Bool("tcp", false, "drive the real server binary over TCP instead of in-process")
+	fSnap    = flag.Bool("snap", false, "in-process: after the setup second the keyspace goes through GetSnapshot/LoadSnapshot into a fresh database (what a restarted or lagging cluster member does), and the probes go there")
 	fKeys    = flag.Int("keys", 600, "keys per round")
 	fRounds  = flag.Int("rounds", 1, "rounds")
 	fMaxTTL  = flag.Int("maxttl", 3, "largest time to live in seconds")
@@ -438,17 +439,18 @@ type div struct {
 }
 
 type workerOut struct {
-	Keys       int            `json:"keys"`
-	Commands   int            `json:"commands"`
-	Decisive   int            `json:"decisive"`  // post-deadline and pre-deadline probes judged
-	Ambiguous  int            `json:"ambiguous"` // probes whose bracket straddled a deadline
-	PostDead   int            `json:"post_dead"` // decisive probes at/after the deadline
-	PreAlive   int            `json:"pre_alive"`
-	Control    int            `json:"control"` // decisive probes of keys whose deadline was removed
-	Tuples     map[string]int `json:"tuples"`  // (probe command, type, instant)
-	Divs       []div          `json:"divs"`
-	Vehicle    string         `json:"vehicle"`
-	DumpChecks int            `json:"dump_checks"`
+	Keys          int            `json:"keys"`
+	Commands      int            `json:"commands"`
+	Decisive      int            `json:"decisive"`  // post-deadline and pre-deadline probes judged
+	Ambiguous     int            `json:"ambiguous"` // probes whose bracket straddled a deadline
+	PostDead      int            `json:"post_dead"` // decisive probes at/after the deadline
+	PreAlive      int            `json:"pre_alive"`
+	Control       int            `json:"control"` // decisive probes of keys whose deadline was removed
+	Tuples        map[string]int `json:"tuples"`  // (probe command, type, instant)
+	Divs          []div          `json:"divs"`
+	Vehicle       string         `json:"vehicle"`
+	DumpChecks    int            `json:"dump_checks"`
+	SnapshotSwaps int            `json:"snapshot_swaps"`
 }
 
 func toCmd(a []string) [][]byte { return respc.Cmd(a...) }
@@ -632,10 +634,37 @@ func worker(o *common.Opts) {
 			// and it stays), a key it merely found missing is missing (TTL -2)
 			acts = append(acts, action{at: dt.Add(off + 40*time.Millisecond), plan: p, cmd: []string{"TTL", p.key}, kind: fmt.Sprintf("after-probe+%.2f", off.Seconds())})
 		}
+		var snapBytes []byte
+		if ie, ok := ex.(*inprocExec); ok && *fSnap && time.Now().Unix() == S {
+			// taken in the setup second, loaded in the next one: a format that stored anything but the deadline itself
+			// (remaining time, say) would move every deadline by the age of the snapshot
+			if b, err := ie.in.Mgr.CurrentDB.GetSnapshot(); err == nil {
+				snapBytes = b
+				acts = append(acts, action{at: time.Unix(S+1, 0).Add(20 * time.Millisecond), kind: "swap"})
+			} else if !seen["snapshot-failed"] {
+				seen["snapshot-failed"] = true
+				out.Divs = append(out.Divs, div{Kind: "state", Phase: "snapshot", Want: "a snapshot of the keyspace", Got: "GetSnapshot: " + err.Error(), Sig: "snapshot-failed"})
+			}
+		}
 		sort.SliceStable(acts, func(a, b int) bool { return acts[a].at.Before(acts[b].at) })
 		for _, a := range acts {
 			if d := time.Until(a.at); d > 0 {
 				time.Sleep(d)
+			}
+			if a.kind == "swap" {
+				fresh := inproc.New()
+				fmt.Fprintf(j, "swap: the keyspace continues in a fresh database loaded from the snapshot (%d bytes)\n", len(snapBytes))
+				if err := fresh.Mgr.CurrentDB.LoadSnapshot(snapBytes); err != nil {
+					if !seen["snapshot-load-failed"] {
+						seen["snapshot-load-failed"] = true
+						out.Divs = append(out.Divs, div{Kind: "state", Phase: "snapshot", Want: "the snapshot loads", Got: "LoadSnapshot: " + err.Error(), Sig: "snapshot-load-failed"})
+					}
+					continue
+				}
+				ex.(*inprocExec).in.Stop()
+				ex = &inprocExec{in: fresh}
+				out.SnapshotSwaps++
+				continue
 			}
 			exec(a.plan, append([]string{}, a.cmd...), a.kind)
 		}
@@ -670,6 +699,8 @@ func main() {
 		a := []string{"-worker", "-batch", strconv.Itoa(i), "-rounds", strconv.Itoa(rounds), "-keys", strconv.Itoa(keys), "-maxttl", strconv.Itoa(maxttl), "-tier", o.Tier, "-seed", fmt.Sprint(o.Seed), "-out", out, "-journal", journal, "-work", o.Work}
 		if tcpOK && i%2 == 1 {
 			a = append(a, "-tcp")
+		} else if i%4 == 2 {
+			a = append(a, "-snap")
 		}
 		return a
 	})
@@ -701,6 +732,7 @@ func main() {
 		agg.PreAlive += w.PreAlive
 		agg.Control += w.Control
 		agg.DumpChecks += w.DumpChecks
+		agg.SnapshotSwaps += w.SnapshotSwaps
 		for k, v := range w.Tuples {
 			agg.Tuples[k] += v
 		}
@@ -749,20 +781,21 @@ func main() {
 			"distinct_nontrivial": len(agg.Tuples),
 			"rule": "one small program per key: value type x way of attaching the deadline (SETEX, SET EX/PX/EXAT, EXPIRE plain/NX/XX/GT/LT with the condition true and false) x ttl x follow-up (SET with/without KEEPTTL, APPEND/INCR, PERSIST, DEL+recreate, RENAME, MSET, second EXPIRE) " +
 				"x one post-deadline probe command at fraction 0.10/0.45 of the deadline second or of the next one (+ a pre-deadline probe at 0.9 of the last live second); distinct = (probe command, value type, probe phase) tuples with a decisive verdict",
-			"samples":                     []any{[]string{"SETEX c6:1 1 10 @0.75", "GET c6:1 @deadline+0.10 -> must be nil"}, []string{"RPUSH c6:2 a b", "EXPIRE c6:2 2 LT", "RENAME away and back", "LLEN c6:2 @deadline+0.45 -> 0"}, []string{"SET c6:3 10 EX 1", "PERSIST c6:3", "GET c6:3 @old deadline+1.10 -> 10"}},
-			"keys":                        agg.Keys,
-			"commands":                    agg.Commands,
-			"probes_decisive":             agg.Decisive,
-			"probes_ambiguous":            agg.Ambiguous,
-			"decisive_fraction":           frac,
-			"decisive_post_deadline":      agg.PostDead,
-			"decisive_pre_deadline_alive": agg.PreAlive,
-			"decisive_control_group":      agg.Control,
-			"stored_deadline_dump_checks": agg.DumpChecks,
-			"vehicles":                    vehicles,
-			"signatures":                  len(sigs),
-			"known_finding_hits":          knownHits,
-			"violation_samples":           vs,
+			"samples":                                []any{[]string{"SETEX c6:1 1 10 @0.75", "GET c6:1 @deadline+0.10 -> must be nil"}, []string{"RPUSH c6:2 a b", "EXPIRE c6:2 2 LT", "RENAME away and back", "LLEN c6:2 @deadline+0.45 -> 0"}, []string{"SET c6:3 10 EX 1", "PERSIST c6:3", "GET c6:3 @old deadline+1.10 -> 10"}},
+			"keys":                                   agg.Keys,
+			"commands":                               agg.Commands,
+			"probes_decisive":                        agg.Decisive,
+			"probes_ambiguous":                       agg.Ambiguous,
+			"decisive_fraction":                      frac,
+			"decisive_post_deadline":                 agg.PostDead,
+			"decisive_pre_deadline_alive":            agg.PreAlive,
+			"decisive_control_group":                 agg.Control,
+			"stored_deadline_dump_checks":            agg.DumpChecks,
+			"keyspaces_continued_through_a_snapshot": agg.SnapshotSwaps,
+			"vehicles":                               vehicles,
+			"signatures":                             len(sigs),
+			"known_finding_hits":                     knownHits,
+			"violation_samples":                      vs,
 		},
 		Assumptions: []string{"one-second clock granularity: a probe is decisive only if its recorded [before, after] second bracket does not contain the deadline; the rest are counted ambiguous",
 			"each key gets exactly one post-deadline probe (a lazy check reaps the key, so a second probe would observe the first one's side effect)"}}
